@@ -310,8 +310,10 @@ class Check:
         ev = {"property_id": self.pid, "tier": self.tier, "seed": self.seed, "level": "proof", "coverage": cov,
               "assumptions": self.assumptions, "wall_s": round(wall, 2), "violations": nviol}
         if not self.replay_path:
-            os.makedirs(os.path.join(VERIF, "evidence"), exist_ok=True)
-            with open(os.path.join(VERIF, "evidence", f"{self.pid}.json"), "w") as fh:
+            # development runs against a scratch worktree (VERIF_REPO) never overwrite the committed evidence
+            evdir = os.path.join(VERIF, "evidence") if REPO == "/repo" else os.path.join(VERIF, "evidence_scratch")
+            os.makedirs(evdir, exist_ok=True)
+            with open(os.path.join(evdir, f"{self.pid}.json"), "w") as fh:
                 json.dump(ev, fh, indent=1, default=str)
         for cell, what, path in self.violations:
             print(f"  violation cell={cell}: {what[:300]}")
